@@ -33,7 +33,7 @@ FEATS = dict(div=False, ts=False, strftime=False, nulls_order=True, setops_all=T
              derived_order_nolimit=False,   # merge_subqueries keeps an inner ORDER BY that names dropped aliases
              outer_derived="plain",         # merge_subqueries inlines constants / non-strict expressions from the null-supplying
                                             # side: derived tables there project bare columns only
-             tvl=True,
+             tvl=True, deep_corr=0.2,
              subq_under_or=False,           # unnest_subqueries turns a subquery predicate under NOT / OR into a join filter
              cross_join_derived=False,      # eliminate_joins drops a cross-joined derived table that may be empty
              same_col_const_pair=False,     # simplify folds `c = 1 AND c < 0` to FALSE although it is NULL for NULL (C06 finding)
@@ -46,6 +46,9 @@ _T1 = T("t1", [("k", sqlgen.INT), ("a1", sqlgen.INT), ("b1", sqlgen.INT), ("s1",
 _T2 = T("t2", [("k", sqlgen.INT), ("a2", sqlgen.INT), ("b2", sqlgen.INT), ("s2", sqlgen.TEXT)])
 _D = {"t1": [(1, 2, 2, "x"), (2, -2, 3, None), (None, 0, 1, "y"), (5, 5, 5, "")], "t2": [(1, 2, 2, "x"), (3, 3, None, "10")]}
 PROBES = [
+    ("probe/merge_subqueries:aggregate-over-outer-column-of-merged-derived-table",
+     "SELECT d4.p3 FROM (SELECT b1 AS p3 FROM t1 AS x1) AS d4 WHERE p3 % 7 >= (SELECT SUM(d6.p3) FROM (SELECT p3, x5.a2 FROM t2 AS x5) AS d6 "
+     "WHERE d6.a2 = d4.p3)"),
     ("probe/merge_subqueries:inner-order-by-without-limit",
      "SELECT 0 AS p5 FROM (SELECT x1.a2 AS p2, x1.k AS p3 FROM t2 AS x1 ORDER BY p2 NULLS FIRST, p3 NULLS FIRST) AS c4"),
     ("probe/merge_subqueries:constant-from-null-supplying-side",
